@@ -38,6 +38,7 @@ fn gen_chain(rng: &mut Rng) -> Chain {
     let buffer = *rng.pick(&[24usize, 32, 64, 100, 256, 1000, 8192, 8192]);
     let eff = buffer.max(24);
     let k = 1 + rng.below(6);
+    let k = if cfg!(miri) { k.min(2) } else { k };
     let mut bytes = Vec::new();
     let mut reqs = Vec::new();
     let mut modes = Vec::new();
@@ -441,8 +442,8 @@ fn run_until_none(d: &mut SDriver, rng: &mut Rng, chunk: &mut Chunking, pol: &Po
 }
 
 pub fn run(ctx: &Ctx, evidence: Option<&PathBuf>) -> i32 {
-    ctx.run_fixed("directed", ctx.dn(300), run_chain);
-    let n = ctx.size3(30_000, 3_000_000, 5);
+    ctx.run_fixed("directed", if ctx.miri() { 2 } else { ctx.dn(300) }, run_chain);
+    let n = ctx.size3(30_000, 3_000_000, 3);
     ctx.run_cases("chains", n, run_chain);
     let _ = Scale::Full;
     ctx.gate("handoffs_stream_to_request", 500);
